@@ -226,6 +226,8 @@ def run(ctx):
     # (5) the unit survives the Zinc and Hayson codecs at magnitudes where a writer might change notation: the real encoders
     #     and decoders from MIR on Number{magnitude, unit} for a handful of units (seed-rotated) x six magnitudes
     for w in codec_survival_obligation(ctx, prog, names, units): findings.append(w)
+    # (6) the lookup function itself (not only the table): get_unit from MIR on every identifier of every unit returns that unit
+    for w in lookup_function_obligation(ctx, prog, names, units): findings.append(w)
     single = [u for u in names if len(units[u]) == 1]
     ctx.cov['single_identifier_units'] = len(single)
     ctx.cov['queries'] += len(queries); ctx.cov['solver_s'] = round(t_sol, 2)
@@ -318,6 +320,34 @@ def codec_survival_obligation(ctx, prog, names, units):
             ctx.report('units.codec:%s:%s' % (b[3], b[4]), 'Number %r with unit %s does not survive the %s codec (%s); native: %s' % (b[2], b[1], b[3], b[4], str(r)[:200]),
                        case={'api': 'zinc_roundtrip' if b[3] == 'zinc' else 'json_roundtrip', 'v': {'t': 'num', 'bits': f2b(b[2]), 'unit': b[1].encode().hex()}})
     return out
+
+
+def lookup_function_obligation(ctx, prog, names, units):
+    from vlib import sym as vsym
+    from mirsym.models import str_ref, items_of
+    from mirsym.values import Ptr
+    f = prog.find_fn(['units', 'get_unit'])
+    if f is None: ctx.note_inconclusive('get_unit not found in the MIR'); return []
+    ex = vsym.make_exec(prog); bad = []
+    todo = [(u, ident) for u in names for ident in units[u]]
+    for u, ident in todo:
+        res = []
+        def fn(e, ident=ident):
+            r = e.call_body(f, [str_ref(list(ident.encode('utf-8')))])
+            if r.variant == 0: return None
+            p = r.fields[0]
+            while isinstance(p, Ptr): p = e.load(p)
+            ids = p.fields[1]
+            while isinstance(ids, Ptr): ids = e.load(ids)
+            return bytes(ids.items[0].items).decode('utf-8')
+        out, left = ex.explore(fn, post=lambda e, r: (r.kind, r.value if r.kind == 'ok' else r.detail))
+        ctx.cov['states'] += len(out)
+        for kind, val in out:
+            if kind != 'ok': ctx.note_inconclusive('get_unit(%r): %s %s' % (ident, kind, val)); break
+            if val != units[u][0]: bad.append(('lookup', ident, u)); break
+    ctx.cov['queries'] += ex.stats['checks']; ctx.add_functions(ex.stats['bodies'])
+    ctx.cov['identifiers_looked_up_from_mir'] = len(todo)
+    return bad
 
 
 def unit_accessor_obligation(ctx, prog):
